@@ -373,7 +373,16 @@ pub fn showdowns(out: &mut Shards, n: usize, rng: &mut Rng) -> u64 {
     let mut lines = 0u64;
     for i in 0..n {
         let su = rng.below(4);
-        let board: u64 = match i % 6 {
+        let mut forced: Option<(u64, u64)> = None; // (flush holding, full-house holding) of the seventh category
+        let board: u64 = match i % 7 {
+            6 => {
+                // a paired board with three cards of one suit: a flush against a full house
+                let rs: Vec<u64> = { let mut v: Vec<u64> = (lowest..13).collect(); for k in 0..5 { let j = k + rng.below((v.len() - k) as u64) as usize; v.swap(k, j); } v };
+                let (p, a, b, x, f1, f2) = (rs[0], rs[1], rs[2], rs[3], rs[4], rs[5 % rs.len()]);
+                let (s2, s3) = ((su + 1) % 4, (su + 2) % 4);
+                forced = Some((c(f1, su) | c(if f2 == f1 { x } else { f2 }, su), c(p, s3) | c(a, s2)));
+                c(p, su) | c(p, s2) | c(a, su) | c(b, su) | c(x, s3)
+            }
             1 => { let lo = lowest + rng.below(13 - 4 - lowest); (0..5).map(|k| c(lo + k, su)).fold(0, |a, b| a | b) } // straight flush
             2 => { let q = lowest + rng.below(13 - lowest); let mut k = lowest + rng.below(13 - lowest); if k == q { k = (q + 1 - lowest) % (13 - lowest) + lowest; } (0..4).map(|s| c(q, s)).fold(0, |a, b| a | b) | c(k, rng.below(4)) }
             3 => rng.cards(5, (0..13).filter(|r| *r >= lowest).map(|r| c(r, su)).fold(0, |a, b| a | b) & DECK_MASK), // five of one suit
@@ -384,13 +393,16 @@ pub fn showdowns(out: &mut Shards, n: usize, rng: &mut Rng) -> u64 {
         let free = DECK_MASK & !board;
         // a holding with a high card of the board's suit / rank region, and random ones
         let suited_high: Vec<u64> = (0..13u64).rev().map(|r| c(r, su)).filter(|m| free & m != 0).collect();
-        let special = if !suited_high.is_empty() && i % 6 != 0 {
-            let a = suited_high[rng.below(suited_high.len().min(4) as u64) as usize];
+        let special = if let Some((fl, _)) = forced {
+            fl
+        } else if !suited_high.is_empty() && i % 7 != 0 {
+            // any free card of the board's suit (higher or lower than the board's): it may or may not play
+            let a = suited_high[rng.below(suited_high.len() as u64) as usize];
             a | rng.cards(1, free & !a)
         } else {
             rng.cards(2, free)
         };
-        let other = rng.cards(2, free & !special);
+        let other = if let Some((_, fh)) = forced { fh } else { rng.cards(2, free & !special) };
         let r1 = rng.cards(2, free);
         let r2 = rng.cards(2, free & !r1);
         let r3 = rng.cards(2, free);
